@@ -1,0 +1,47 @@
+//go:build verif
+
+package core
+
+import (
+	"github.com/jsightapi/jsight-api-core/directive"
+	"github.com/jsightapi/jsight-api-core/jerr"
+)
+
+// The functions below let the verification harness run the phases of
+// processJApiProject one at a time and look at the intermediate directive forests.
+// They add no behaviour of their own.
+
+// VerifScanProject runs the scanning phase only.
+func (core *JApiCore) VerifScanProject() *jerr.JApiError {
+	return core.scanProject()
+}
+
+// VerifCompileMacros runs collectMacro, checkMacroForRecursion, processPaste and
+// collectRules (the first four steps of compileCore).
+func (core *JApiCore) VerifCompileMacros() *jerr.JApiError {
+	if je := core.collectMacro(); je != nil {
+		return je
+	}
+	if je := core.checkMacroForRecursion(); je != nil {
+		return je
+	}
+	if je := core.processPaste(); je != nil {
+		return je
+	}
+	return core.collectRules()
+}
+
+// VerifDirectives returns the forest as written (after collectMacro: without MACROs).
+func (core *JApiCore) VerifDirectives() []*directive.Directive {
+	return core.directives
+}
+
+// VerifExpanded returns the forest after PASTE expansion.
+func (core *JApiCore) VerifExpanded() []*directive.Directive {
+	return core.directivesWithPastes
+}
+
+// VerifMacros returns the macro table.
+func (core *JApiCore) VerifMacros() map[string]*directive.Directive {
+	return core.macro
+}
